@@ -462,6 +462,7 @@ func runFaultCase(c faultCase) *Violation {
 // reopenAndCompare opens a file and compares its full observation with the model.
 func reopenAndCompare(prop, path string, want *spec.Obs, opts spec.DiffOpts) *Violation {
 	var got *spec.Obs
+	var vv *Violation
 	err := drive.Safe(func() error {
 		seg, e := drive.Open(path)
 		if e != nil {
@@ -469,10 +470,17 @@ func reopenAndCompare(prop, path string, want *spec.Obs, opts spec.DiffOpts) *Vi
 		}
 		defer seg.Close()
 		got, e = drive.Observe(seg)
+		if e == nil && len(want.Vec) > 0 {
+			// (vectors tag) every surviving vector must be in the file, too
+			vv = vectorSegmentCheck(prop, seg, want, "a file reported as written successfully")
+		}
 		return e
 	})
 	if err != nil {
 		return violation(prop, "nofault/reopen-error", "a file reported as written successfully does not re-open: %v", err)
+	}
+	if vv != nil {
+		return vv
 	}
 	if d := spec.Diff(want, got, opts); d != "" {
 		return violation(prop, "nofault/content-mismatch", "a file reported as written successfully re-opens with other content: %s", d)
